@@ -296,6 +296,13 @@ func checkState(hist []op, val imapnum.Set, mod model, numsJobs *[]numsJob) {
 	// text round trip
 	if len(fn) > 0 {
 		txt := fn.String()
+		// the text is a value: rendering another set afterwards must not change it
+		keep := string(append([]byte(nil), txt...))
+		other := imapnum.Set{{Start: 1234567, Stop: 1234569}}
+		if otxt := other.String(); txt != keep || otxt != "1234567:1234569" {
+			viol("string-value-changes-after-another-String-call", fmt.Sprintf("was %q, is %q after rendering %q", keep, txt, otxt))
+			txt = keep
+		}
 		if fs.String() != txt || fu.String() != txt {
 			viol("string-flavours-disagree", txt+" "+fs.String()+" "+fu.String())
 		}
@@ -352,9 +359,9 @@ type workerReq struct {
 	Hist []op
 }
 type workerResp struct {
-	I                int
+	I                 int
 	NumOK, SeqOK, UOK bool
-	Num, Seq, UID    []uint32
+	Num, Seq, UID     []uint32
 }
 
 func workerMain() {
